@@ -1482,6 +1482,7 @@ EXPECTED_PROBES = ['twin_first', 'call_raised', 'lazy_stepped_across_a_call', 'a
 _NOPS = len(OPS)
 _NQ = len([o for o in OPS.values() if 'editor' not in o.tags])
 _NL = len([o for o in OPS.values() if o.lazy])
+STATE_MEASURE = 'dump of every shared annotation in the pool after the event'
 FAMILY_STARTS = [0, _NOPS * _NOPS * 5, _NOPS * _NOPS * 5 + _NOPS * 15, _NOPS * _NOPS * 5 + _NOPS * 15 + _NQ * 10,
                  _NOPS * _NOPS * 5 + _NOPS * 15 + _NQ * 10 + _NL * _NQ * 2,
                  _NOPS * _NOPS * 5 + _NOPS * 15 + _NQ * 10 + _NL * _NQ * 2 + _NL * 8,
